@@ -55,6 +55,17 @@ CHECKS = {
              "behind the real protocol); random policies with up to 4 entries per list are judged by TLC against Admit.",
         note="Trusted: TLC; the embedding arithmetic of checks/c09.py (model bits -> real address bits); allow_list=[] is "
              "left undecided (grey)."),
+    "C02": dict(
+        engine="StaticServe", design="8 C02, 5.4, Appendix G",
+        text="TLC enumerates every (file tree, request path): 14x14 assignments of two slots (absent, regular file, symlink to "
+             "any directory/file/slot/itself/dangling; a prefix-sharing sibling root2 and an outside secret exist) x listing on/off "
+             "x every path of <=2 (thorough 3) segment tokens incl. dot segments, percent-encoded dots, encoded slash, literal and "
+             "encoded names x trailing slash, and checks Safe and Reachable; every case is materialised on disk and served by the "
+             "real StaticFileHandler, the served node being identified by sentinel search, and compared with the model; random "
+             "byte-level spellings (backslash, NUL, control bytes, long names, double encoding) are judged by sentinel; "
+             "disagreements are judged by the observation spec.",
+        note="Trusted: TLC; sentinel-based identification of what was served; the POSIX file system of the sandbox. Newline "
+             "translation of read_text (CRLF files are served with LF) is outside the property as stated and not judged."),
 }
 
 ORDER = ["C01", "C02", "C03", "C04", "C05", "C06", "C07", "C08", "C09", "C10", "C11", "C12", "C13", "C14", "C15",
